@@ -193,8 +193,13 @@ def missing_path_tolerated(ctx):
                     continue
                 n_paths += 1
                 kinds_taken = [e for e in p if e.label and e.label[0] == "variant" and path_ends(e.label[1] or "", "ErrorKind") and "notify" in (e.label[1] or "")]
-                via_pnf = any("PathNotFound" in e.label[2] for e in kinds_taken)
-                via_io = any("Io" in e.label[2] for e in kinds_taken) or not kinds_taken
+                # the error kinds this path is taken for: every test of the kind on the path narrows them (an `_ =>` arm after an `Io(..)` arm was
+                # taken for an Io error only)
+                possible = None
+                for e in kinds_taken:
+                    possible = set(e.label[2]) if possible is None else (possible & set(e.label[2]))
+                via_pnf = possible is not None and "PathNotFound" in possible
+                via_io = possible is None or "Io" in possible
                 def not_found_test(o):
                     def is_kind_call(x):
                         return x[0] == "call" and x[1].endswith("io::Error::kind")
